@@ -19,7 +19,6 @@ NOTES = ("Every check is solver-based (DESIGN.md): Engine K = Kani/CBMC over the
          "counterexample that did not reproduce natively); it is never reported as success or as a violation. Known findings: known_findings.txt.")
 
 NOT_APPLICABLE = {
-    "C19": "harnesses under construction (not yet registered)",
 }
 
 S_TECH = ("bounded symbolic execution of the real generic palette code by instantiation with a term-building number type "
